@@ -6,9 +6,9 @@ open SoupVerif
 #print axioms C13.filterLoop_star_literal
 #print axioms C13.filterCore_eq_rfc
 #print axioms C13.rfc_star_matches_empty_text
-#print axioms C13.filterCore_empty_range
-#print axioms C13.filterCore_empty_range_wf
-#print axioms C13.filterCore_star_range
+#print axioms C13.rfc_empty_range
+#print axioms C13.empty_range_only_empty_tag
+#print axioms C13.star_range_nonempty_tag
 #print axioms C13.filterCore_eq_c13
 #print axioms C13.rfc_star_skip
 #print axioms C13.rfc_stripWild
